@@ -96,17 +96,17 @@ func (e *Env) importNamed(name string) *types.Package {
 }
 
 var wellKnownImports = map[string]string{
-	"spb":      "github.com/openconfig/gribi/v1/proto/service",
-	"aftpb":    "github.com/openconfig/gribi/v1/proto/gribi_aft",
-	"aft":      "github.com/openconfig/gribigo/aft",
-	"codes":    "google.golang.org/grpc/codes",
-	"status":   "google.golang.org/grpc/status",
+	"spb":       "github.com/openconfig/gribi/v1/proto/service",
+	"aftpb":     "github.com/openconfig/gribi/v1/proto/gribi_aft",
+	"aft":       "github.com/openconfig/gribigo/aft",
+	"codes":     "google.golang.org/grpc/codes",
+	"status":    "google.golang.org/grpc/status",
 	"constants": "github.com/openconfig/gribigo/constants",
-	"rib":      "github.com/openconfig/gribigo/rib",
-	"client":   "github.com/openconfig/gribigo/client",
-	"enums":    "github.com/openconfig/gribi/v1/proto/gribi_aft/enums",
-	"wpb":      "github.com/openconfig/ygot/proto/ywrapper",
-	"uint128":  "lukechampine.com/uint128",
+	"rib":       "github.com/openconfig/gribigo/rib",
+	"client":    "github.com/openconfig/gribigo/client",
+	"enums":     "github.com/openconfig/gribi/v1/proto/gribi_aft/enums",
+	"wpb":       "github.com/openconfig/ygot/proto/ywrapper",
+	"uint128":   "lukechampine.com/uint128",
 }
 
 func (e *Env) resolveType(s string) types.Type {
@@ -756,6 +756,45 @@ func (e *Env) evalCall(x *ECall) Val {
 			e.fail("vals of untyped value")
 		}
 		return Val{T: u.mapVals(e.cur, v.Ty, v.T)}
+	case "zeroexcept":
+		// zeroexcept(p, f1, f2, ...): every field of the struct p points to, other than the named
+		// ones, holds its zero value ("and nothing else is set")
+		v := e.eval(x.Args[0])
+		pt, ok := v.Ty.Underlying().(*types.Pointer)
+		if !ok {
+			e.fail("zeroexcept wants a pointer to a struct")
+		}
+		stt, ok := pt.Elem().Underlying().(*types.Struct)
+		if !ok {
+			e.fail("zeroexcept wants a pointer to a struct")
+		}
+		skip := map[string]bool{}
+		for _, a := range x.Args[1:] {
+			id, ok := a.(*EIdent)
+			if !ok {
+				e.fail("zeroexcept: field names expected")
+			}
+			found := false
+			for i := 0; i < stt.NumFields(); i++ {
+				if stt.Field(i).Name() == id.Name {
+					found = true
+				}
+			}
+			if !found {
+				e.fail("zeroexcept: %s has no field %s", pt.Elem(), id.Name)
+			}
+			skip[id.Name] = true
+		}
+		var cs []Term
+		for i := 0; i < stt.NumFields(); i++ {
+			f := stt.Field(i)
+			if skip[f.Name()] {
+				continue
+			}
+			a := (&Addr{ref: v.T, objT: pt.Elem(), valT: pt.Elem()}).extend(pathElem{field: i, st: pt.Elem()}, f.Type())
+			cs = append(cs, Eq(u.load(e.cur, a), reg.Zero(f.Type())))
+		}
+		return spec(And(cs...))
 	case "fresh":
 		v := e.eval(x.Args[0])
 		return spec(And(App(SBool, ">=", v.T, u.top(e.old)), App(SBool, "<", v.T, u.top(e.cur))))
@@ -986,12 +1025,12 @@ func (e *Env) evalMethod(sel *ESel, args []Expr) Val {
 // locations (assigns clauses, frame checks)
 
 type loc struct {
-	key   string
-	sort  Sort
-	whole bool  // the entire array / variable
-	ref   *Term // index in the array
-	sub   *Term // key within a map entry array
-	text  string
+	key    string
+	sort   Sort
+	whole  bool  // the entire array / variable
+	ref    *Term // index in the array
+	sub    *Term // key within a map entry array
+	text   string
 	region string
 }
 
